@@ -10,7 +10,8 @@ import numpy as np
 from . import seams
 
 NEG_INF = float("-inf")
-LL_ALPHABET = {"0": 0.0, "h": float(np.log(0.5)), "m": -5.0, "i": NEG_INF, "n": float("nan")}
+# 'u': a finite likelihood so far below the others that its acceptance ratio underflows to exactly 0
+LL_ALPHABET = {"0": 0.0, "h": float(np.log(0.5)), "m": -5.0, "i": NEG_INF, "n": float("nan"), "u": -800.0}
 
 _LIBFILES = {}
 
